@@ -264,6 +264,9 @@ func (w *world) finish(res simrt.Result) {
 	sc := w.sc
 	sim := w.sim
 	quiescent := res.EndKind == "quiescent"
+	if sim.PeriodicIdle {
+		w.probes.Add("ended_in_periodic_idling", 1)
+	}
 	if res.EndKind == "stepcap" {
 		var parked []string
 		for _, t := range sim.Tasks {
@@ -306,6 +309,14 @@ func (w *world) finish(res simrt.Result) {
 				fa, fb = fb, fa
 			}
 			w.violate("race", "data-race-on-frame-buffer", fa+" / "+fb, fmt.Sprintf("unsynchronised accesses to the same pool buffer: %s in %s (task %d) and %s in %s (task %d) are not ordered by happens-before (%s)", a.Type, a.Func, r.TaskA, b.Type, b.Func, r.TaskB, r.Kind))
+		} else if k := a.Kind; (k == "r" || k == "w" || k == "captured" || k == "atomic") && (b.Kind == "r" || b.Kind == "w" || b.Kind == "captured" || b.Kind == "atomic") {
+			// package-level (or closure-shared) library state touched by two stream goroutines
+			// without synchronisation: e.g. two parser goroutines inside the same decoder
+			fa, fb := a.Func, b.Func
+			if fb < fa {
+				fa, fb = fb, fa
+			}
+			w.violate("race", "data-race-on-library-state", fa+" / "+fb, fmt.Sprintf("unsynchronised accesses to the same library variable by two goroutines of the stream: %q in %s (task %d) and %q in %s (task %d) are not ordered by happens-before (%s)", a.Text, a.Func, r.TaskA, b.Text, b.Func, r.TaskB, r.Kind))
 		} else {
 			w.probes.Add("race_on_other_object", 1)
 		}
